@@ -228,9 +228,27 @@ def tie_threshold(rng, pts, cost, which):
     return rng.choice(grid), False
 
 
+def tie_curve(rng, n):
+    """integer staircases / symmetric shapes: many segments with exactly equal ordering keys"""
+    if rng.random() < 0.5:
+        h = (n + 1) // 2
+        half = [rng.randrange(0, 9) for _ in range(h)]
+        y = half + half[:n - h][::-1]
+        fam = 'symmetric-int'
+    else:
+        y, cur = [], rng.randrange(4, 12)
+        for _ in range(n):
+            y.append(cur)
+            cur = max(0, cur - rng.choice([0, 0, 1, 1, 2, 3]))
+        fam = 'staircase-int'
+    return np.array([[float(i), float(v)] for i, v in enumerate(y)]), fam
+
+
 def random_points(ctx, nmax):
     rng = ctx.rng
     u = rng.random()
+    if u < 0.22:
+        return tie_curve(rng, rng.randrange(4, min(nmax, 24) + 1))
     if u < 0.70:
         n = rng.randrange(2, nmax + 1) if rng.random() < 0.8 else rng.randrange(2, 7)
         return gen.dyadic_curve(rng, n)
